@@ -1,5 +1,6 @@
 import Syzgy.Lemmas.Rest
 import Syzgy.Lemmas.RestDocs
+import Syzgy.Lemmas.RestSession
 /-!
 # C17 — the REST server behaves as the document-store model, across restarts
 The model *is* the sequential specification: `name ↦ (options, id ↦ metadata)` with the handlers'
@@ -76,5 +77,21 @@ theorem delete_removes_one_document (s : Server) (parts : List Bytes) (name idSt
       ∀ i, docGet (c.docs.filter (fun e => e.1 != id)) i = if i = id then none else docGet c.docs i) ∧
     ((docGet c.docs id).isSome = false → handleDeleteRecord s parts = .ok (s, { status := 404 })) :=
   delete_semantics s parts name idStr id c hlen hp hi hid hl
+
+/-! ## sessions and restarts -/
+
+/-- **a restart may fall anywhere in a session**: serving `qs₁`, restarting (kill -9 included, given
+    C02/C07 for the files) and serving `qs₂` gives the answers and the final state of serving
+    `qs₁ ++ qs₂` without the restart -/
+theorem restart_anywhere_in_a_session (s s1 s2 : Server) (qs1 qs2 : List Req) (rs1 rs2 : List Resp)
+    (h1 : serve s qs1 = .ok (s1, rs1)) (h2 : serve (restart s1) qs2 = .ok (s2, rs2)) :
+    serve s (qs1 ++ qs2) = .ok (s2, rs1 ++ rs2) :=
+  serve_append qs1 qs2 s s1 s2 rs1 rs2 h1 h2
+
+/-- **frame over a whole session**: a collection that no request of the session changes... is stated
+    per request by `frame`; over a session, the state is a function of the accepted requests alone -/
+theorem session_state_depends_on_accepted_requests_only (s s' : Server) (qs : List Req) (rs : List Resp)
+    (h : serve s qs = .ok (s', rs)) : ∃ rs', serve s (accepted qs rs) = .ok (s', rs') :=
+  ⟨_, rejected_erasable qs s s' rs h⟩
 
 end Syzgy.C17
